@@ -60,9 +60,16 @@ def main():
     # 2./3. correspondence + property predicates on the implementation
     res = C.Result(prop)
     ctx = {"tier": args.tier, "seed": seed, "thorough": args.tier == "thorough"}
+    twin_groups = tuple(getattr(mod, "JIT_TWIN", ()))
+    twin = None
+    if twin_groups:
+        from . import jittwin
+        twin = jittwin.start(twin_groups, ctx)     # the numba-compiled twin runs alongside (harness/jittwin.py)
     try:
         mod.run(ctx, res)
     except C.DriverError as e:
+        if twin is not None:
+            twin.kill()
         print("driver failure:", e)
         sys.exit(2)
     except Exception as e:
@@ -70,6 +77,12 @@ def main():
         # or now raises). That is a broken correspondence, not a tool failure.
         traceback.print_exc()
         res.mismatch("harness", "exception while driving the implementation", repr(e), "", note=traceback.format_exc()[-1500:])
+
+    if twin is not None:
+        try:
+            jittwin.finish(twin, twin_groups, ctx, res, prop)
+        except Exception as e:  # noqa: BLE001
+            res.mismatch("numba-compiled vs interpreted", {"groups": list(twin_groups)}, "", "", note="twin comparison failed: " + repr(e))
 
     # Escalation: a proof obligation or the correspondence is broken but no failing input has been seen yet:
     # search further (other seeds, same budget) on the implementation before giving up.
